@@ -105,6 +105,57 @@ func c08Judge(fullB, twice bool) func(sc *e1Scenario, h *hist.Hist, cps map[stri
 			}
 			return true
 		}
+		// Causes, observable in the history, for a verification that starts
+		// at entry k (a from-entry checkpoint or the cache's last-verified
+		// entry) to differ from verification of the whole log:
+		// laterRevocation: a skip annotation recorded after k names an entry
+		// for the reference at or before k (what was verified up to k has
+		// been revoked since); toleratedFix: k was accepted as the repair of
+		// a revoked violation, not on its own signature.
+		laterRevocation := func(ref string, k int) bool {
+			for a := k + 1; a < n; a++ {
+				e := h.A.Entries[a]
+				if e.Kind != refver.Annotation || !e.Skip {
+					continue
+				}
+				for _, t := range e.Names {
+					if t <= k && h.A.Entries[t].Ref == ref {
+						return true
+					}
+				}
+			}
+			return false
+		}
+		toleratedFix := func(k int) bool {
+			if k < 0 || k >= n || h.A.Entries[k].Kind != refver.Push {
+				return false
+			}
+			pol := h.A.PolicyInForceAt(k)
+			if pol == nil {
+				return false
+			}
+			ok, _ := h.A.Authorised(k, pol, h.A.AttInForceAt(k))
+			return !ok
+		}
+		lastVerifiedIndex := func(f *memstore.Store, ref string) int {
+			pc, err := cache.LoadPersistentCache(f)
+			if err != nil {
+				return -1
+			}
+			num, _ := pc.GetLastVerifiedEntryForRef(ref)
+			return int(num) - 1
+		}
+		startCause := func(ref string, k int) string {
+			switch {
+			case k < 0:
+				return ""
+			case toleratedFix(k):
+				return "starts-at-a-tolerated-fix-entry-and-judges-it-as-an-ordinary-entry"
+			case laterRevocation(ref, k):
+				return "entries-at-or-before-the-starting-entry-were-revoked-after-it-was-verified"
+			}
+			return ""
+		}
 		report := func(kind, cfg string, p mr, got, want c08Outcome) {
 			dir := "reject-instead-of-accept"
 			if got.ok && !want.ok {
@@ -160,7 +211,13 @@ func c08Judge(fullB, twice bool) func(sc *e1Scenario, h *hist.Hist, cps map[stri
 				col.Inc("evaluations")
 				col.Inc("from_entry_checks")
 				if !c08Same(got, base[mr{"full", ref}]) {
-					report("from-entry-differs-from-full", fmt.Sprintf("checkpoint #%d", k), mr{"from-entry", ref}, got, base[mr{"full", ref}])
+					if c := startCause(ref, k); c != "" {
+						col.Violation("C08:from-entry-differs-from-full:"+c,
+							fmt.Sprintf("[%s] from-entry(%s) from checkpoint #%d = %s, full = %s", h.Describe(), ref, k, got, base[mr{"full", ref}]),
+							e1Replay{Scenario: sc.Name, Events: h.Events, Mode: "from-entry", Ref: ref})
+					} else {
+						report("from-entry-differs-from-full", fmt.Sprintf("checkpoint #%d", k), mr{"from-entry", ref}, got, base[mr{"full", ref}])
+					}
 				}
 			}
 			if base[mr{"full", ref}].ok && h.A.Entries[last].Kind == refver.Push {
@@ -240,6 +297,7 @@ func c08Judge(fullB, twice bool) func(sc *e1Scenario, h *hist.Hist, cps map[stri
 									f.Refs[cache.Ref] = cref3
 									rsl.ResetCacheForVerif()
 									complete := indexComplete(f) && indexComplete(a) && indexComplete(a2)
+									lvi := lastVerifiedIndex(f, p.ref)
 									got := c08Run(f, p.mode, p.ref, nil)
 									col.Inc("evaluations")
 									col.Inc("twice_advanced_cache_verifications")
@@ -255,6 +313,10 @@ func c08Judge(fullB, twice bool) func(sc *e1Scenario, h *hist.Hist, cps map[stri
 										col.Violation("C08:latest-only-verification-marks-its-entry-last-verified:full-verification-then-skips-earlier-entries",
 											fmt.Sprintf("[%s] full(%s) with a %s = %s, without cache = %s", h.Describe(), p.ref, cfg, got, base[p]),
 											e1Replay{Scenario: sc.Name, Events: h.Events, Mode: p.mode, Ref: p.ref})
+									} else if c := startCause(p.ref, lvi); p.mode == "full" && c != "" {
+										col.Violation("C08:full-verification-from-the-cached-last-verified-entry-differs:"+c,
+											fmt.Sprintf("[%s] full(%s) with a %s (last verified entry #%d) = %s, without cache = %s", h.Describe(), p.ref, cfg, lvi, got, base[p]),
+											e1Replay{Scenario: sc.Name, Events: h.Events, Mode: p.mode, Ref: p.ref})
 									} else {
 										report("verdict-differs-with-cache:cache-advanced-twice:index-complete", cfg, p, got, base[p])
 									}
@@ -268,6 +330,7 @@ func c08Judge(fullB, twice bool) func(sc *e1Scenario, h *hist.Hist, cps map[stri
 						f.Refs[cache.Ref] = cref2
 						rsl.ResetCacheForVerif()
 						complete := indexComplete(f) && indexComplete(a)
+						lvi := lastVerifiedIndex(f, p.ref)
 						got := c08Run(f, p.mode, p.ref, nil)
 						col.Inc("evaluations")
 						col.Inc("advanced_cache_verifications")
@@ -278,6 +341,10 @@ func c08Judge(fullB, twice bool) func(sc *e1Scenario, h *hist.Hist, cps map[stri
 						} else if !c08Same(got, base[p]) && adv.mode == "latest" && p.mode == "full" && got.ok && !base[p].ok {
 							col.Violation("C08:latest-only-verification-marks-its-entry-last-verified:full-verification-then-skips-earlier-entries",
 								fmt.Sprintf("[%s] full(%s) after latest-only verification of %s at log length %d advanced the cache = %s, without cache = %s", h.Describe(), p.ref, adv.ref, j, got, base[p]),
+								e1Replay{Scenario: sc.Name, Events: h.Events, Mode: p.mode, Ref: p.ref})
+						} else if c := startCause(p.ref, lvi); !c08Same(got, base[p]) && p.mode == "full" && c != "" {
+							col.Violation("C08:full-verification-from-the-cached-last-verified-entry-differs:"+c,
+								fmt.Sprintf("[%s] full(%s) with a cache populated at %d, advanced by %s(%s) at %d (last verified entry #%d), log length %d = %s, without cache = %s", h.Describe(), p.ref, k, adv.mode, adv.ref, j, lvi, n, got, base[p]),
 								e1Replay{Scenario: sc.Name, Events: h.Events, Mode: p.mode, Ref: p.ref})
 						} else if !c08Same(got, base[p]) {
 							report("verdict-differs-with-cache:cache-advanced-by-earlier-verification:index-complete", fmt.Sprintf("cache populated at %d, advanced by %s(%s) at %d, log length %d", k, adv.mode, adv.ref, j, n), p, got, base[p])
@@ -340,7 +407,32 @@ func c08Scenarios(thorough bool) []*e1Scenario {
 	if thorough {
 		dTwice = 3
 	}
+	// a revoked violation is open when exploration starts: the recovery
+	// workflow writes the last-verified marker on its own path, and a
+	// verification that ends in an error still persists what it marked
+	incidentPrefix := []hist.Event{{Kind: "policy", Policy: 0}, {Kind: "push", Ref: refMain, Commit: "c0", Signer: "P0"},
+		{Kind: "push", Ref: refMain, Commit: "c1", Signer: "U"}, {Kind: "annotate", Names: []int{2}, Skip: true}}
+	incidentMenu := func(h *hist.Hist, depth int) []hist.Event {
+		evs := []hist.Event{}
+		for _, c := range []string{"c2", "r"} {
+			for _, s := range []string{"P0", "U"} {
+				evs = append(evs, hist.Event{Kind: "push", Ref: refMain, Commit: c, Signer: s})
+			}
+		}
+		evs = append(evs, hist.Event{Kind: "push", Ref: refFeat, Commit: "c1", Signer: "U"}, hist.Event{Kind: "policy", Policy: 1})
+		for i, e := range h.A.Entries {
+			if e.Kind == refver.Push && i > 2 {
+				evs = append(evs, hist.Event{Kind: "annotate", Names: []int{i}, Skip: true})
+			}
+		}
+		return evs
+	}
+	dInc := 3
+	if thorough {
+		dInc = 4
+	}
 	return []*e1Scenario{
+		{Name: "C08/open-incident", World: c08World, Policies: c08Policies(), Prefix: incidentPrefix, Menu: incidentMenu, Depth: dInc, Refs: []string{refMain, refFeat}, Judge: c08Judge(true, false)},
 		{Name: "C08/twice-advanced-caches", World: c08World, Policies: c08Policies(), Prefix: prefix, Menu: c08Menu, Depth: dTwice, Refs: []string{refMain, refFeat, refTag}, Judge: c08Judge(true, true)},
 		{Name: "C08/advanced-caches", World: c08World, Policies: c08Policies(), Prefix: prefix, Menu: c08Menu, Depth: dFull, Refs: []string{refMain, refFeat, refTag}, Judge: c08Judge(true, false)},
 		{Name: "C08/populated-caches", World: c08World, Policies: c08Policies(), Prefix: prefix, Menu: c08Menu, Depth: dA, Refs: []string{refMain, refFeat, refTag}, Judge: c08Judge(false, false)},
@@ -355,10 +447,11 @@ func TestC08(t *testing.T) {
 		}
 	}()
 	scs := c08Scenarios(evid.Thorough())
-	col.Bound("events_after_prefix_populated", scs[2].Depth)
-	col.Bound("events_after_prefix_advanced", scs[1].Depth)
-	col.Bound("events_after_prefix_advanced_twice", scs[0].Depth)
-	col.Rule("every history of <= %d events (cache advanced by an earlier verification: <= %d) after [policy; push] over {pushes to main by authorised / later de-authorised / unknown keys, push to an unprotected ref, two recordings of a tag under a threshold-2 rule, approvals, three policy states (incl. de-authorisation and threshold raise), skip annotations}; principals share no keys. For every history: cache-less first-time verdict (full, latest-only) for every reference = baseline; then the same under (a) repetition / other references first on one store, (b) a cache populated at EVERY earlier log length k and carried forward untouched, (c) that cache advanced by every single earlier verification (mode x ref x length j>=k), (c') histories of <= %d events: that cache advanced by every ordered PAIR of earlier verifications (at lengths k <= j <= j2), (d) VerifyRefFromEntry from every entry reached by an earlier successful full verification vs full; and the ref listing before/after. No expected values are written: every comparison is between two runs of the real code. A class is (configuration, mode, with-cache verdict, baseline verdict)", scs[2].Depth, scs[1].Depth, scs[0].Depth)
+	col.Bound("events_after_prefix_populated", scs[3].Depth)
+	col.Bound("events_after_prefix_advanced", scs[2].Depth)
+	col.Bound("events_after_prefix_advanced_twice", scs[1].Depth)
+	col.Bound("events_after_open_incident_prefix", scs[0].Depth)
+	col.Rule("every history of <= %d events (cache advanced by an earlier verification: <= %d) after [policy; push] over {pushes to main by authorised / later de-authorised / unknown keys, push to an unprotected ref, two recordings of a tag under a threshold-2 rule, approvals, three policy states (incl. de-authorisation and threshold raise), skip annotations}; principals share no keys. For every history: cache-less first-time verdict (full, latest-only) for every reference = baseline; then the same under (a) repetition / other references first on one store, (b) a cache populated at EVERY earlier log length k and carried forward untouched, (c) that cache advanced by every single earlier verification (mode x ref x length j>=k), (c') histories of <= %d events: that cache advanced by every ordered PAIR of earlier verifications (at lengths k <= j <= j2), (d) VerifyRefFromEntry from every entry reached by an earlier successful full verification vs full; and the ref listing before/after. No expected values are written: every comparison is between two runs of the real code. (e) the same as (b)+(c) for every history of <= %d events after a prefix that leaves a revoked violation open (repairs by authorised/unknown keys, further violations, their revocations, a policy change), so that verifications ending in an error and the recovery workflow's own cache writes are among the advancing verifications. A class is (configuration, mode, with-cache verdict, baseline verdict)", scs[3].Depth, scs[2].Depth, scs[1].Depth, scs[0].Depth)
 	col.Assume("principals share no keys (as quantified); the process-wide rsl entry cache is reset before every compared run")
 	for _, sc := range scs {
 		sc.keepSnaps = true
